@@ -191,14 +191,35 @@ def spec_tri(spec):
 
 
 # ------------------------------------------------------------------------------ strict comparison
+def slice_groups(t):
+    """Independent of Metadata.__hash__ / Triangle.slices: the ==-distinct metadata of the cells in first-occurrence
+    order (representative = the first cell's Metadata object) with their cells in triangle order."""
+    groups = []
+    for c in (t.cells if hasattr(t, "cells") else t):
+        for g in groups:
+            if g[0] == c.metadata:
+                g[1].append(c)
+                break
+        else:
+            groups.append((c.metadata, [c]))
+    return groups
+
+
 def canon_retag(t, ordered=True):
-    """canonical form of the triangle the reader must return (Cell comes back as CumulativeCell)"""
+    """canonical form of the triangle the reader must return: Cell comes back as CumulativeCell, and every cell
+    carries the representation of its slice's FIRST metadata (model: regroup; identical to the cell's own
+    metadata whenever Python-equal metadata are identical, i.e. in every regular case)."""
+    from harness.coqterm import canon_meta
+
+    reps = slice_groups(t)
     out = []
-    for c in canon_tri(t, ordered=ordered):
-        c = list(c)
-        if c[0] == "Cell":
-            c[0] = "CumulativeCell"
-        out.append(tuple(c))
+    for c, cc in zip((t.cells if hasattr(t, "cells") else t), canon_tri(t, ordered=ordered)):
+        cc = list(cc)
+        if cc[0] == "Cell":
+            cc[0] = "CumulativeCell"
+        rep = next(m for m, _ in reps if m == c.metadata)
+        cc[5] = canon_meta(rep, ordered)
+        out.append(tuple(cc))
     return tuple(out)
 
 
@@ -257,12 +278,21 @@ def plain_view_ok(t, text):
     """what a plain JSON parser sees: one object per slice with its metadata once, cells with ISO
     dates and values, prev_evaluation_date iff incremental"""
     d = json.loads(text)
-    if set(d.keys()) != {"slices"} or len(d["slices"]) != len(t.slices):
-        return "top-level object / number of slice objects"
+    groups = slice_groups(t)
+    if set(d.keys()) != {"slices"}:
+        return "top-level object"
+    if len(d["slices"]) != len(groups):
+        return (f"each slice's metadata must be listed once: {len(d['slices'])} slice objects for {len(groups)} "
+                "==-distinct metadata")
+    keys = [json.dumps({k: v for k, v in so.items() if k != "cells"}, sort_keys=True) for so in d["slices"]]
+    if len(set(keys)) != len(keys):
+        return "the same slice metadata is listed more than once"
+    if len(t.slices) != len(groups):
+        return f"Triangle.slices has {len(t.slices)} entries for {len(groups)} ==-distinct metadata"
     n = 0
     meta_keys = {"risk_basis", "country", "currency", "reinsurance_basis", "loss_definition",
                  "per_occurrence_limit", "details", "loss_details"}
-    for (m, sl), so in zip(t.slices.items(), d["slices"]):
+    for (m, sl_cells), so in zip(groups, d["slices"]):
         if not set(so.keys()) <= meta_keys | {"cells"}:
             return "slice object keys"
         md = m.as_dict()
@@ -273,9 +303,9 @@ def plain_view_ok(t, text):
                     return f"slice metadata {k}"
             elif not (v is None or v == {}):
                 return f"slice metadata {k} missing"
-        if len(so["cells"]) != len(sl.cells):
+        if len(so["cells"]) != len(sl_cells):
             return "number of cells in a slice"
-        for c, co in zip(sl.cells, so["cells"]):
+        for c, co in zip(sl_cells, so["cells"]):
             n += 1
             inc = type(c).__name__ == "IncrementalCell"
             want = {"period_start", "period_end", "evaluation_date", "values"} | ({"prev_evaluation_date"} if inc else set())
@@ -334,7 +364,59 @@ def oracle(t, tmpdir, rng=None, full=True):
                             "first_diff_index": diff,
                             "got": repr(g[diff]) if diff is not None and diff < len(g) else f"{len(g)} cells",
                             "want": repr(want[diff]) if diff is not None and diff < len(want) else f"{len(want)} cells"}
+                if vn == "exported" and rn == "json_string_to_triangle":
+                    # re-export of what was read: the same tree again (each slice's metadata once)
+                    again = json.loads(got.to_json())
+                    if again != json.loads(text):
+                        return {"stage": "re-export of the imported triangle differs from the first export",
+                                "slice_objects": len(again.get("slices", [])), "distinct_metadata": len(slice_groups(t))}
+        # a plain serialiser may list the cells one slice entry per cell, each with that cell's own spelling of
+        # the metadata (detail keys in its own order): every cell must come back as it is, and the re-export must
+        # list each ==-distinct metadata once
+        ptext = json.dumps(per_cell_tree(t))
+        try:
+            got = rd["json_string_to_triangle"](ptext)
+        except Exception as ex:  # noqa: BLE001
+            return {"stage": "import of a plain tree with one slice entry per cell", "raised": f"{type(ex).__name__}: {ex}"[:300]}
+        own = tuple(tuple(["CumulativeCell" if c[0] == "Cell" else c[0]] + list(c[1:])) for c in canon_tri(t, ordered=True))
+        g = canon_tri(got, ordered=True)
+        if g != own:
+            diff = next((i for i, (a, b) in enumerate(zip(g, own)) if a != b), None)
+            return {"stage": "import of a plain tree with one slice entry per cell", "detail": "cells differ",
+                    "first_diff_index": diff, "got": repr(g[diff]) if diff is not None else f"{len(g)} cells",
+                    "want": repr(own[diff]) if diff is not None else f"{len(own)} cells"}
+        again = json.loads(got.to_json())
+        keys = [json.dumps({k: v for k, v in so.items() if k != "cells"}, sort_keys=True) for so in again["slices"]]
+        if len(again["slices"]) != len(slice_groups(t)) or len(set(keys)) != len(keys):
+            return {"stage": "re-export after loading plain JSON: each slice's metadata must be listed once",
+                    "slice_objects": len(again["slices"]), "distinct_metadata": len(slice_groups(t))}
+        if sum(len(so["cells"]) for so in again["slices"]) != len(t):
+            return {"stage": "re-export after loading plain JSON: cell count"}
     return None
+
+
+def per_cell_tree(t):
+    """what a plain serialiser could write: one slice entry per cell, metadata in the cell's own spelling"""
+    out = []
+    for c in t.cells:
+        m = c.metadata
+        so = {}
+        for k in ("risk_basis", "country", "currency", "reinsurance_basis", "loss_definition", "per_occurrence_limit"):
+            v = getattr(m, k)
+            if v is not None or k == "risk_basis":
+                so[k] = v
+        if m.details:
+            so["details"] = dict(m.details)
+        if m.loss_details:
+            so["loss_details"] = dict(m.loss_details)
+        co = {"period_start": c.period_start.isoformat(), "period_end": c.period_end.isoformat(),
+              "evaluation_date": c.evaluation_date.isoformat()}
+        if type(c).__name__ == "IncrementalCell":
+            co["prev_evaluation_date"] = c.prev_evaluation_date.isoformat()
+        co["values"] = {k: (v.tolist() if isinstance(v, np.ndarray) else v) for k, v in c.values.items()}
+        so["cells"] = [co]
+        out.append(so)
+    return {"slices": out}
 
 
 # ------------------------------------------------------------------------------ generation
@@ -390,6 +472,52 @@ def gen_cases(ctx, n):
     return out
 
 
+def mixed_rep_cases(rng, n):
+    """cells of ONE slice carrying equal Metadata objects spelt differently: detail / loss_detail keys inserted in
+    another order, 7 vs 7.0, 1 vs True (N4: one slice, exported once, everything comes back in the first
+    cell's spelling); 1-2 further slices that differ genuinely"""
+    from bermuda import CumulativeCell, IncrementalCell, Metadata, Triangle
+
+    out = []
+    i = 0
+    while len(out) < n and i < 40 * n:
+        i += 1
+        d1 = {"lob": rng.choice(["auto", "home"]), "n": 7, "state": "NY", "flag": True}
+        keys = rng.sample(list(d1), rng.randint(2, 4))
+        a = {k: d1[k] for k in keys}
+        b = {k: (7.0 if (k == "n" and rng.random() < 0.5) else a[k]) for k in reversed(keys)}
+        la = {"cov": "x", "layer": 2}
+        lb = {"layer": 2 if rng.random() < 0.5 else 2.0, "cov": "x"}
+        use_l = rng.random() < 0.5
+        lim = rng.choice([None, 1000])
+        m1 = Metadata(country="US", per_occurrence_limit=lim, details=a, loss_details=la if use_l else {})
+        m2 = Metadata(country="US", per_occurrence_limit=(float(lim) if lim and rng.random() < 0.5 else lim),
+                      details=b, loss_details=lb if use_l else {})
+        others = [Metadata(country="DE", details=dict(a))][: rng.randint(0, 1)]
+        inc = rng.random() < 0.4
+        cells = []
+        for m_i, m in enumerate([m1, m2] + others):
+            for y in (2019, 2020):
+                for lag in (0, 1):
+                    if m_i < 2 and (y + lag + m_i) % 2 == 0 and rng.random() < 0.8:
+                        continue          # the two spellings cover different cells of the same slice
+                    kw = dict(period_start=D(y, 1, 1), period_end=D(y, 12, 31), evaluation_date=D(y + lag, 12, 31),
+                              values={"paid_loss": rng.randint(0, 500), "s": np.array([1.5, 0.5]) * (lag + 1)}, metadata=m)
+                    if inc:
+                        kw["prev_evaluation_date"] = D(y + lag - 1, 12, 31)
+                    cells.append((IncrementalCell if inc else CumulativeCell)(**kw))
+        if not any(c.metadata is m1 for c in cells) or not any(c.metadata is m2 for c in cells):
+            continue
+        rng.shuffle(cells)
+        with warnings.catch_warnings():
+            warnings.simplefilter("ignore")
+            t = Triangle(cells)
+        if len({(c.period_start, c.evaluation_date, id(next(m for m, _ in slice_groups(t) if m == c.metadata))) for c in t.cells}) != len(t):
+            continue                      # no duplicate coordinates inside a slice
+        out.append((t, {"mixed_rep": True, "basis": "inc" if inc else "cum"}, f"mixed-spelling/{i}"))
+    return out
+
+
 def battery():
     """directed cases: every metadata attribute alone, risk_basis None, every value kind, each class"""
     from bermuda import Cell, CumulativeCell, IncrementalCell, Metadata, Triangle
@@ -442,6 +570,7 @@ def extra_oracle_cases(rng):
 # ------------------------------------------------------------------------------ Coq correspondence
 HEADER = """From Coq Require Import ZArith List Bool.
 From Bermuda Require Import Model.Base Model.Json.
+From Bermuda Require Import Proofs.JsonRoundtrip.
 From Gen Require Import GenJson.
 Import ListNotations.
 Local Open Scope Z_scope.
@@ -467,15 +596,19 @@ def correspondence(ctx, cases, layout_name):
                     back = Triangle.from_dict(tree)
                     ptree = shuffle_tree(tree, rng)
                     pback = Triangle.from_dict(ptree)
+                if info.get("mixed_rep"):   # Python-equal metadata spelt differently: C07_roundtrip_any_order
+                    hyp, claim = f"wf_tri L t{ci} && negb (grouped t{ci})", f"regroup t{ci}"
+                else:
+                    hyp, claim = f"wf_tri L t{ci} && grouped t{ci}", f"map retag t{ci}"
                 txt = (f"Definition t{ci} : list wcell := {cwcells(t.cells)}.\n"
                        f"Definition j{ci} : json := {cjson(tree)}.\n"
                        f"Definition r{ci} : list wcell := {cwcells(back.cells)}.\n"
                        f"Definition pj{ci} : json := {cjson(ptree)}.\n"
                        f"Definition pr{ci} : list wcell := {cwcells(pback.cells)}.\n"
-                       f"Definition case{ci} : list bool := [wf_tri L t{ci} && grouped t{ci};\n"
+                       f"Definition case{ci} : list bool := [{hyp};\n"
                        f"  json_eqb (encode L t{ci}) j{ci};\n"
                        f"  result_eqb (list_eqb wcell_eqb) (decode L j{ci}) (Ok r{ci});\n"
-                       f"  list_eqb wcell_eqb r{ci} (map retag t{ci});\n"
+                       f"  list_eqb wcell_eqb r{ci} ({claim});\n"
                        f"  result_eqb (list_eqb wcell_eqb) (decode L pj{ci}) (Ok pr{ci})].\n")
             except NotRepresentable:
                 ctx.hist("corr:skipped-not-representable")
@@ -637,7 +770,7 @@ def run(ctx):
         ctx.log("proof files done; generating cases")
         # 3. cases
         n_gen = 170 if ctx.quick else 1500
-        cases = battery() + gen_cases(ctx, n_gen)
+        cases = battery() + mixed_rep_cases(random.Random(ctx.seed * 13 + 1), 24 if ctx.quick else 150) + gen_cases(ctx, n_gen)
         for t, info, desc in cases:
             ctx.hist("case:" + desc.split("/")[0] + "/" + str(info.get("basis", info.get("cls", ""))))
             ctx.hist(f"slices:{len(t.slices)}")
